@@ -95,7 +95,9 @@ func logging(rep *kit.Report, root string) {
 		subsets = append(subsets, idx)
 	})
 	big := "5000xt"
-	scripts := []string{"ret:0", "ret:200", "ret:404", "ret:400", "ret:500:boom", "ret:503", "status:200;write:x;ret:0", "status:201;write:" + big + ";ret:0", "status:404;write:nf;ret:0", "status:200;write:x;write:y;flush;ret:0:boom", "status:204;ret:0", "panic", "status:200;write:x;panic", ""}
+	scripts := []string{"ret:0", "ret:200", "ret:404", "ret:400", "ret:500:boom", "ret:503", "status:200;write:x;ret:0", "status:201;write:" + big + ";ret:0", "status:404;write:nf;ret:0", "status:200;write:x;write:y;flush;ret:0:boom", "status:204;ret:0", "panic", "status:200;write:x;panic", "",
+		// the handler flushes before it has written anything (which commits 200), then reports an error or writes
+		"flush;ret:500:boom", "flush;ret:404", "flush;write:x;ret:0"}
 	paths := []string{"/a/x", "/a/skip/y", "/b/z", "/c", "/rw", "/teapot", "/int/q", "/priv/p", "/old", "/A/X", "/a/../b/w", "/plain.txt", "/missing"}
 	type job struct {
 		lc  logCfg
@@ -407,7 +409,7 @@ func rotation(rep *kit.Report, root string) {
 
 func main() {
 	rep := kit.NewReport("C20", "exploration",
-		"logging: 6 log layouts (one, two same-scope, disjoint scopes, except, except on the first of two, nested scopes) x every subset of size <=2 of 11 wrapping directives x 14 inner behaviours x 13 paths x GET/POST x Accept-Encoding, new lines of every log file counted after every request and {status}/{size} compared with what the strict writer saw; rotation: two sites sharing one rolling file under 4 spellings of its name, every line counted over the file and its backups, lines after a rotation looked for in the current file; placeholders: every format of 3 atoms over 20 atoms (vocabulary, header/cookie/query/env lookups, unknown, escaped braces, text) x 9x9 request-supplied values containing placeholder syntax, against a single-pass reference; distinct_nontrivial = outcome classes")
+		"logging: 6 log layouts (one, two same-scope, disjoint scopes, except, except on the first of two, nested scopes) x every subset of size <=2 of 11 wrapping directives x 17 inner behaviours x 13 paths x GET/POST x Accept-Encoding, new lines of every log file counted after every request and {status}/{size} compared with what the strict writer saw; rotation: two sites sharing one rolling file under 4 spellings of its name, every line counted over the file and its backups, lines after a rotation looked for in the current file; placeholders: every format of 3 atoms over 20 atoms (vocabulary, header/cookie/query/env lookups, unknown, escaped braces, text) x 9x9 request-supplied values containing placeholder syntax, against a single-pass reference; distinct_nontrivial = outcome classes")
 	kit.Init()
 	kit.RegisterProbe()
 	kit.Log.Off.Store(true)
